@@ -91,7 +91,7 @@ func init() {
 	register(&Check{
 		ID:    "C08",
 		Level: "exploration",
-		Rule: "seeded single-RPC scenarios on the dynamic sim service (client form x method shape x service protocol/codec/compression subsets x messages), each run twice: " +
+		Rule: "seeded single-RPC scenarios on the dynamic sim service (client form x method shape x service protocol/codec/compression subsets x messages) and REST calls of the streaming methods of the generated ContentService (upload and download through google.api.HttpBody), each run twice: " +
 			"(in a third of the runs under a message-size limit just above the largest single message) atomically and under drawn segmentations of the request deliveries, handler read-buffer sizes, handler write pieces/flushes, response-writer flavour, pool and scheduling policy; " +
 			"thorough additionally enumerates every one-dimensional segmentation (split offset, piece size, read-buffer size, write mode, flush, writer flavour) on the small corpus that covers every adapter path; " +
 			"distinct = (form>target/adapter path/shape, schedule hash); non-trivial = at least one request message decoded by the backend and one response message decoded by the client",
